@@ -333,3 +333,57 @@ def check_oneshot_iterators(model: RepoModel, rep, RID: str, rels: Iterable[str]
                                       f"iteration sees no elements and contributes nothing")
                         break
     return n
+
+
+def check_memo_keys(model: RepoModel, rep, RID: str, rels: Iterable[str], declare_text: Optional[str] = None, min_instances: int = 0) -> int:
+    """G4: a method that memoises its result in a dict attribute (`if k in self.C: return self.C[k]` ... `self.C[k] = r`) must key the
+    memo by everything the computation reads from its parameters.  An input that only enters the key through a lossy function
+    (basename, lower, len, ...) or not at all makes two different calls share one answer."""
+    if declare_text is not None:
+        rep.rule(RID, declare_text, min_instances)
+    n = 0
+    for rel in rels:
+        mod = model.module(rel)
+        for f in mod.all_funcs():
+            if f.cls is None:
+                continue
+            # memo lookups:  if K in self.C: return self.C[K]
+            for st in walk_no_nested(f.node):
+                if not (isinstance(st, ast.If) and isinstance(st.test, ast.Compare) and len(st.test.ops) == 1 and isinstance(st.test.ops[0], ast.In)
+                        and isinstance(st.test.comparators[0], ast.Attribute) and isinstance(st.test.comparators[0].value, ast.Name)
+                        and st.test.comparators[0].value.id == "self" and any(isinstance(b, ast.Return) for b in st.body)):
+                    continue
+                cache = st.test.comparators[0].attr
+                kexpr = st.test.left
+                stores = [x for x in walk_no_nested(f.node) if isinstance(x, ast.Assign) and isinstance(x.targets[0], ast.Subscript)
+                          and isinstance(x.targets[0].value, ast.Attribute) and x.targets[0].value.attr == cache]
+                if not stores:
+                    continue
+                n += 1
+                kdef = kexpr
+                if isinstance(kexpr, ast.Name):
+                    ds = [a.value for a in walk_no_nested(f.node) if isinstance(a, ast.Assign) and isinstance(a.targets[0], ast.Name) and a.targets[0].id == kexpr.id]
+                    kdef = ds[0] if len(ds) == 1 else kexpr
+                elems = list(kdef.elts) if isinstance(kdef, ast.Tuple) else [kdef]
+                covered = {norm(e) for e in elems}
+                params = set(f.params[1:])
+                covered_params = {e.id for e in elems if isinstance(e, ast.Name) and e.id in params}
+                # inputs read by the computation (after the lookup)
+                reads: Dict[str, int] = {}
+                for x in walk_no_nested(f.node):
+                    if getattr(x, "lineno", 0) <= st.lineno:
+                        continue
+                    if isinstance(x, ast.Attribute) and isinstance(x.value, ast.Name) and x.value.id in params and isinstance(x.ctx, ast.Load):
+                        reads.setdefault(norm(x), x.lineno)
+                    if isinstance(x, ast.Name) and x.id in params and isinstance(x.ctx, ast.Load):
+                        pass
+                missing = sorted(r for r in reads if r not in covered and r.split(".")[0] not in covered_params)
+                key = f"{rel}::{f.qualname}::memo self.{cache} is keyed by every input"
+                if missing:
+                    rep.violation(RID, key, rel, st.lineno,
+                                  f"{f.qualname} returns a memoised answer for key `{norm(kdef)[:80]}`, but the computation also reads {missing}: two "
+                                  f"calls that agree on the key and differ there (two files of the same name in different directories) share the "
+                                  f"answer computed for the first one")
+                else:
+                    rep.holds(RID, key, rel, st.lineno, f"key `{norm(kdef)[:80]}` covers {sorted(reads)}")
+    return n
